@@ -7,6 +7,7 @@ package harness
 
 import (
 	"crypto/sha256"
+	"encoding/binary"
 	"encoding/hex"
 	"encoding/json"
 	"fmt"
@@ -161,6 +162,10 @@ func NewCtx(property, tier string, seed int64) *Ctx {
 // something non-empty; outcome is a coarse class of what was observed.
 func (c *Ctx) Case(digest uint64, nontrivial bool, outcome string) {
 	c.Evals++
+	if len(c.progress) >= 24 {
+		// a space whose one case is a whole search (BFS shard) shows that it is alive through its sub-cases
+		binary.LittleEndian.PutUint64(c.progress[16:24], binary.LittleEndian.Uint64(c.progress[16:24])+1)
+	}
 	if nontrivial {
 		if digest == 0 {
 			c.Nontrivial++
